@@ -190,6 +190,8 @@ def _deq(a, td):
         if len(sc) > 1:
             shp = [1] * a.ndim
             shp[qp["quantized_dimension"]] = len(sc)
+            if len(zp) == 1:   # a prepared kernel may report its per-tensor scale expanded per channel with ONE zero point (cf. D32)
+                zp = np.repeat(zp, len(sc))
             sc, zp = sc.reshape(shp), zp.reshape(shp)
         a = (a.astype(np.float64) - zp) * sc
     with np.errstate(all="ignore"):
